@@ -63,6 +63,12 @@ def worker(args):
     ident = {"a": "a", "b": "b", "v": "v"}
 
     def establish(q, nm=ident):
+        try:
+            return _establish(q, nm)
+        except BaseException:  # noqa - the prior bindings are plain accepted checks: they never raise
+            return False
+
+    def _establish(q, nm):
         ok = isinstance(R.zeros((2,)), R.array_ann(nm["a"])) and isinstance(R.zeros((3,)), R.array_ann(nm["b"])) \
             and isinstance(R.zeros((2,)), R.array_ann("*" + nm["v"]))
         if q:
